@@ -966,6 +966,10 @@ func (s *Session) handleAuth(cmdSeq int, c Cmd, line string) bool {
 		if out.Note != "" {
 			s.ev(Event{Kind: "auth", Verb: mech, Text: out.Note})
 		}
+		if out.Hangup {
+			s.ev(Event{Kind: "auth", Verb: mech, Text: "fail: server hung up in the middle of the exchange"})
+			return false
+		}
 		if out.Done {
 			if out.OK {
 				s.authed = true
